@@ -243,18 +243,32 @@ func parseCrash(stderrPath string) crashSite {
 		end = len(lines)
 	}
 	cs.Excerpt = strings.Join(lines[start:end], "\n")
-	for i := start; i < len(lines)-1; i++ {
-		m := frameRe.FindStringSubmatch(lines[i])
-		if m == nil || strings.Contains(m[1], "/verifhook") {
-			continue
+	// first frame inside lib/torrent (the p2p code under judgement); helpers
+	// such as utils/syncutil are attributed to their caller
+	pick := func(onlyTorrent bool) bool {
+		for i := start; i < len(lines)-1; i++ {
+			m := frameRe.FindStringSubmatch(lines[i])
+			if m == nil || strings.Contains(m[1], "/verifhook") {
+				continue
+			}
+			if onlyTorrent && !strings.Contains(m[1], "/lib/torrent/") {
+				continue
+			}
+			cs.Func = m[1]
+			if j := strings.LastIndex(lines[i], "("); j > 0 {
+				cs.Func = lines[i][:j] // full function name, e.g. pkg.(*T).method
+			}
+			f := strings.TrimSpace(lines[i+1])
+			if j := strings.Index(f, " "); j > 0 {
+				f = f[:j]
+			}
+			cs.File = f
+			return true
 		}
-		cs.Func = m[1]
-		f := strings.TrimSpace(lines[i+1])
-		if j := strings.Index(f, " "); j > 0 {
-			f = f[:j]
-		}
-		cs.File = f
-		break
+		return false
+	}
+	if !pick(true) {
+		pick(false)
 	}
 	cs.Component = componentOfFile(cs.File)
 	return cs
